@@ -1003,8 +1003,32 @@ fn exec(cx: &mut Ctx, op: &Op, pc: usize) -> Option<u64> {
     }
 }
 
+/// C07, last clause: `get_mut` / `into_inner` return the protected value (no scheduling point is
+/// involved; checked once per iteration on locks of its own)
+fn lock_value_probe() {
+    let mut m = loom::sync::Mutex::new(41u64);
+    if *m.get_mut().unwrap() != 41 {
+        panic!("VERIF-PROBE-FAILED: Mutex::get_mut did not return the protected value");
+    }
+    *m.get_mut().unwrap() = 42;
+    if m.into_inner().unwrap() != 42 {
+        panic!("VERIF-PROBE-FAILED: Mutex::into_inner did not return the protected value");
+    }
+    let mut l = loom::sync::RwLock::new(43u64);
+    if *l.get_mut().unwrap() != 43 {
+        panic!("VERIF-PROBE-FAILED: RwLock::get_mut did not return the protected value");
+    }
+    *l.get_mut().unwrap() = 44;
+    if l.into_inner().unwrap() != 44 {
+        panic!("VERIF-PROBE-FAILED: RwLock::into_inner did not return the protected value");
+    }
+}
+
 fn model_body(p: StdArc<Program>) {
     gate_point();
+    if p.n_mutex > 0 || p.n_rwlock > 0 {
+        lock_value_probe();
+    }
     UNWINDING.with(|u| *u.borrow_mut() = [false; 8]);
     TLS_INITED.with(|t| *t.borrow_mut() = vec![[false; 2]; MAX_THREADS]);
     LAZY_STAMP.with(|c| c.set(0));
